@@ -500,12 +500,18 @@ func (t *Tree) checkRecursion(n *node, ruleReached []bool) bool {
 		ruleReached[id] = false
 		return consumes
 	case TypeAlternate:
+		/* every alternative starts where the choice starts */
+		consumes := true
 		for element := range n.Iterator() {
 			if !t.checkRecursion(element, ruleReached) {
-				return false
+				consumes = false
 			}
 		}
-		return true
+		return consumes
+	case TypeQuery, TypeStar, TypePeekFor, TypePeekNot:
+		/* the operand is tried where the expression starts, but nothing has to be consumed */
+		t.checkRecursion(n.Front(), ruleReached)
+		return false
 	case TypeSequence:
 		return slices.ContainsFunc(slices.Collect(n.Iterator()), func(n *node) bool {
 			return t.checkRecursion(n, ruleReached)
